@@ -33,6 +33,17 @@ BAD_BYTES = [b"caf\xe9 latin1\n", b"\xff\xfe u\x00t\x00f\x001\x006\x00\n", b"tru
 
 def lost_case(ctx, kind, inp, inp2, user_seed, spelling):
     rng = random.Random(user_seed)
+    inp2_fresh = inp2
+    if kind in ("py", "cs", "cpp") and (inp.get("reuse_gen") or (user_seed % 5 == 2 and "iface_table" not in inp2)):
+        # a tool that keeps its Interface and generator objects (built before the output directory existed) and regenerates with them
+        key = "c03-%d" % user_seed
+        inp = dict(inp, reuse_iface=key, reuse_gen=key)
+        inp2_fresh = dict(inp2, iface_table=inp["table"])
+        inp2 = dict(inp2_fresh, reuse_iface=key, reuse_gen=key)
+        presv.IFACES.pop(key, None)
+        for k in [k for k in presv.GENS if k[0] == key]:
+            presv.GENS.pop(k)
+        ctx.count("reused_generator_object")
     with scratch() as d:
         os.makedirs(os.path.join(d, "w", "sub"))
         base = os.path.join(d, "w")
@@ -42,7 +53,7 @@ def lost_case(ctx, kind, inp, inp2, user_seed, spelling):
         try:
             with kj.cwd(base):
                 presv.run_kind(kind, spell, inp)
-            presv.run_kind(kind, ref, inp2)
+            presv.run_kind(kind, ref, inp2_fresh)
         except Exception as e:  # noqa
             ctx.count("generator_rejected_input:%s" % type(e).__name__)
             return "trivial"
@@ -170,6 +181,8 @@ def run(ctx):
                 inp2 = presv.mutate_input(ctx.rng, kind, inp2)
             inp2["name"] = inp["name"]
             user_seed = ctx.rng.randint(0, 1 << 30)
+            if i == 1 and kind in ("py", "cs", "cpp"):
+                user_seed = user_seed - user_seed % 5 + 2      # one case per state-machine back end keeps its generator object
             sp = SPELLINGS[i % len(SPELLINGS)]
             res = lost_case(ctx, kind, inp, inp2, user_seed, sp)
             ctx.case(("lost", kind, json.dumps(inp2, sort_keys=True), user_seed, sp), nontrivial=(res != "trivial"))
